@@ -33,6 +33,7 @@ for Q in $P "$@"; do
   cp /tmp/wt/evidence-$Q.bak /verif/evidence/$Q.json 2>/dev/null
 done
 git -C /repo worktree remove --force $WT
+(cd /verif && ./check regen >/dev/null 2>&1)   # coq/gen/*.v must describe /repo again
 mkdir -p $DEST
 cp $OUT/patch_$X.diff $DEST/patch.diff; cp $OUT/demo_$X.py $DEST/demo.py
 python3 - "$P" "$X" "$res" "$suite" <<'PY'
